@@ -72,7 +72,8 @@ class SchemaGen:
         if odd_type_names and n_obj >= 3:
             objs[-1] = "snake_obj"
         if odd_type_names and n_obj >= 2:
-            objs[0] = r.choice(["HTTPThing", "SMSMessage", "ObA", "dnsFailure"])
+            # (`Video`, `Workspace`, `user`: names on either side of `Unknown` in every sort order)
+            objs[0] = r.choice(["HTTPThing", "SMSMessage", "ObA", "dnsFailure", "Video", "Workspace", "user"])
         if unknown_member and n_obj >= 2:
             # an object type that is literally called `Unknown` (legal; only meaningful to test with the other-variant option OFF,
             # where the generator adds no variant of that name itself); made a member of every union and interface below
